@@ -9,7 +9,7 @@ func init() {
 			"(MERGE) every trip / identified vehicle returned by an entity parser, and every alert-referenced trip, is merged on every path into the accumulator looked up under its own id; accumulators are created only when absent and as zero values; mergeTrip/mergeVehicle always take the identifier and replace the whole entry exactly on the incoming value's IsEntityInMessage edge, otherwise write nothing else (own entity wins, wherever it appears); " +
 			"(UNIQ) Realtime.Trips and the identified part of Realtime.Vehicles are appended only inside the range over the id-keyed accumulator (one entry per key), and only vehicles on the ID == nil edge bypass it; " +
 			"(G6/G16) both are sorted afterwards by a comparator that is total on the key type (TripID.Less consults every field); (ORDER) alerts are tail-appended once per entity in index order and never sorted. " +
-			"(GUARD) the vehicle identifier holds identifying wire fields only and every time of one message carries one Location object (see C04). (SCAN) no loop that does something per entity is left by a break (an entity of no known kind does not end the message); the sort comparators are chains of stages in which a field compared only `when flag` is qualified by the flag of the stage directly before it (otherwise the order is not total). Not decided: commutativity of the loop body for conflicting duplicates (excluded by the property).",
+			"(EXTV) the NYCT extension puts the derived vehicle descriptor, unmodified, on every kind of entity on every path, so the trip update and the vehicle position of one trip merge under one vehicle identifier whatever their order. (GUARD) the vehicle identifier holds identifying wire fields only and every time of one message carries one Location object (see C04). (SCAN) no loop that does something per entity is left by a break (an entity of no known kind does not end the message); the sort comparators are chains of stages in which a field compared only `when flag` is qualified by the flag of the stage directly before it (otherwise the order is not total). Not decided: commutativity of the loop body for conflicting duplicates (excluded by the property).",
 		Rules: []Rule{
 			{Name: "A3", Doc: "identifier fields of trips and vehicles are bound to their own wire fields: entities are merged by the identifier that was sent", MinInstances: 35, Run: runWireTable},
 			{Name: "SCAN", Doc: "a loop that does something for each element is not left early (no break out of a processing loop)", MinInstances: 1, Run: func(c *Ctx) { runFullScan(c, realtimeFns(c), "SCAN") }},
@@ -23,6 +23,7 @@ func init() {
 			}},
 			{Name: "GUARD", Doc: "entity parsers return nil only for absent wire fields", MinInstances: 2, Run: runParserGuards},
 			{Name: "LINK", Doc: "the links between trips and vehicles are part of the order-independent result: link discipline as in C04 (links stored after the entity loop, from association tables)", MinInstances: 5, Run: runLinkRules},
+			{Name: "EXTV", Doc: "an extension that derives the vehicle of an entity gives the trip update and the vehicle position of one trip the same descriptor (they merge under it)", MinInstances: 1, Run: runSameVehicleForBothEntities},
 		},
 	})
 	register(&PropSpec{
